@@ -20,7 +20,7 @@ WITH_NUMPY = True
 RULE = ("pool of diversely-typed values (built-ins, str/int/dict/list/tuple subclasses, user Mapping and Sequence classes, "
         "a class registered as both, a class that is neither, two distinct classes with the same name, an object lying about "
         "__class__, numpy 0-d/1-d/2-d arrays, scalars and ndarray SUBCLASSES) x channels {each validator, is_base_type, "
-        "constructor, setitem, reset/merge}; EVERY warm-up history of bounded length over (channel, value) events is run in a "
+        "constructor, setitem, reset/merge, merge into an existing nested child, 'a retained child survives a merge'}; EVERY warm-up history of bounded length over (channel, value) events is run in a "
         "child forked from a parent that imported the library and processed nothing, then EVERY probe in its own grandchild; "
         "the outcome (accept / exception class / category / stored form) must equal the probe's outcome in a genuinely fresh "
         "interpreter; non-trivial = distinct (history, probe) pairs")
@@ -182,6 +182,7 @@ def pool(with_numpy=True):
         "TupleMapping": lambda: TupleMapping((10, 20)), "DictSeq": lambda: DictSeq(a=1), "FloatSub": lambda: FloatSub(2.5),
         "inf": lambda: float("inf"), "nan": lambda: float("nan"), "bigint": lambda: 2 ** 70, "emptydict": lambda: {},
         "emptylist": lambda: [], "nested": lambda: {"a": [1, {"b": (2, 3)}]},
+        "dotted": lambda: {"q.r": 1}, "nested_dotted": lambda: {"a": {"q.r": 1}},
     }
     if with_numpy:
         try:
@@ -261,6 +262,29 @@ def apply_channel(channel, value):
                 x = cj.JSONAttrDict(filename=env.fresh_name())
                 x["k"] = value
                 return stored(x)
+            if channel in ("attr_merge_child", "dict_merge_child"):
+                # the value is merged into a position that already holds a nested child (update -> in-place merge)
+                x = (cj.JSONAttrDict if channel.startswith("attr") else cj.JSONDict)(filename=env.fresh_name())
+                x["k"] = {"old": 1, "sub": {"s": 1}}
+                x.update({"k": value})
+                return stored(x)
+            if channel in ("held_child_attr", "held_child_dict", "held_child_list"):
+                # a retained nested child must survive a merge of plain data of its own kind: same object, and a write
+                # through it reaches the resource
+                if channel == "held_child_list":
+                    x = cj.JSONList(filename=env.fresh_name())
+                    x.append({"old": 1})
+                    c = x[0]
+                    x.reset([value if type(value) is dict and value and all("." not in k for k in value) else {"new": 2}])
+                    same = x[0] is c
+                else:
+                    x = (cj.JSONAttrDict if channel.endswith("attr") else cj.JSONDict)(filename=env.fresh_name())
+                    x["k"] = {"old": 1}
+                    c = x["k"]
+                    x.update({"k": value if type(value) is dict and value and all("." not in k for k in value) else {"new": 2}})
+                    same = x["k"] is c
+                c["w"] = 3
+                return ["ok", same, model.canon_json(model.to_plain(type(x)(filename=x.filename)()))]
     except Exception as e:  # noqa: BLE001
         return ["raise", type(e).__name__]
     raise ValueError(channel)
@@ -271,9 +295,15 @@ QUICK_CHANNELS = ("json_format_validator", "json_attr_dict_validator", "is_base_
 _TIER = ["thorough"]
 
 
+# channels about merging into / keeping nested children; combined with the few values that matter for them
+MERGE_CHANNELS = ("attr_merge_child", "dict_merge_child", "held_child_attr", "held_child_dict", "held_child_list")
+MERGE_VALUES = ("dict", "list", "none", "emptydict", "dotted", "nested_dotted", "DictSub", "UserMapping")
+
+
 def events(with_numpy=True):
     chans = QUICK_CHANNELS if _TIER[0] == "quick" else CHANNELS
-    return [(c, v) for v in pool(with_numpy) for c in chans]
+    p = pool(with_numpy)
+    return [(c, v) for v in p for c in chans] + [(c, v) for v in MERGE_VALUES if v in p for c in MERGE_CHANNELS]
 
 
 def _fork_outcome(fn):
